@@ -225,19 +225,27 @@ def case_labels(lines):
     return out
 
 
-def run_family(family, mode, n, labels, seed, runner, workdir, extra=None, jobs=JOBS):
+def run_family(family, mode, n, labels, seed, runner, workdir, extra=None, jobs=JOBS, only=None):
     """Run `n` generated cases of a director family split over `jobs` processes, then the model
-    runner over the traces.  Returns a list of case dicts and the merged label histogram."""
+    runner over the traces.  Returns a list of case dicts and the merged label histogram.
+    `only=(count, director_seed)` reruns exactly one shard of an earlier run (replay)."""
     os.makedirs(workdir, exist_ok=True)
     per = max(1, (n + jobs - 1) // jobs)
-    procs = []
+    shards = []
     for j in range(jobs):
         cnt = min(per, n - j * per)
         if cnt <= 0:
             break
+        shards.append((j, cnt, seed * 131 + j))
+    if only is not None:
+        shards = [(0, only[0], only[1])]
+    procs = []
+    rerun = {}
+    for j, cnt, dseed in shards:
         tr = os.path.join(workdir, "%s-%s-%d.trace" % (family, mode, j))
         cmd = [os.path.join(BUILD, "director"), family, "-mode", mode, "-n", str(cnt), "-labels", str(labels),
-               "-seed", str(seed * 131 + j), "-out", tr, "-work", os.path.join(workdir, "w%d" % j)] + (extra or [])
+               "-seed", str(dseed), "-out", tr, "-work", os.path.join(workdir, "w%d" % j)] + (extra or [])
+        rerun[tr] = dict(family=family, mode=mode, n=cnt, labels=labels, dseed=dseed, runner=runner, extra=extra or [])
         procs.append((tr, subprocess.Popen(cmd, stdout=subprocess.PIPE, stderr=subprocess.PIPE)))
     hist, harness_errors, traces = {}, [], []
     for tr, p in procs:
@@ -286,7 +294,7 @@ def run_family(family, mode, n, labels, seed, runner, workdir, extra=None, jobs=
             v = verdicts.get(cid, ("MISSING", ""))
             labs = case_labels(lines)
             info = dict(case=cid, seed=seed_s, verdict=v[0], info=v[1].strip(), trace=tr, lines=lines,
-                        labels=labs, mismatches=cur_mis.get(cid, []),
+                        labels=labs, mismatches=cur_mis.get(cid, []), rerun=rerun.get(tr),
                         digest=hashlib.sha1("\n".join(labs).encode()).hexdigest())
             m = re.search(r"nontrivial=(\d+)", v[1])
             info["nontrivial"] = int(m.group(1)) if m else 0
@@ -354,6 +362,9 @@ def write_replay(pid, case, why, extra=None):
     path = os.path.join(REPLAYS, "%s-seed%s-case%d.replay" % (pid, case.get("seed", "x"), case.get("case", 0)))
     with open(path, "w", encoding="utf-8") as f:
         f.write("; property %s\n; %s\n" % (pid, why))
+        if case.get("rerun"):
+            # everything `check <ID> --replay <this file>` needs to regenerate and re-execute the case
+            f.write("; rerun %s\n" % json.dumps(dict(case.get("rerun"), case=case.get("case", 0))))
         for m in case.get("mismatches", [])[:6]:
             for d in m["detail"][:8]:
                 f.write("; " + d[:2000] + "\n")
@@ -361,6 +372,21 @@ def write_replay(pid, case, why, extra=None):
             f.write("; " + extra + "\n")
         f.writelines(case.get("lines", []))
     return path
+
+
+def read_replay(path):
+    """Returns (rerun dict or None, recorded trace lines) of a replay file."""
+    rerun, lines = None, []
+    with open(path, encoding="utf-8", errors="replace") as f:
+        for ln in f:
+            if ln.startswith("; rerun "):
+                try:
+                    rerun = json.loads(ln[len("; rerun "):])
+                except ValueError:
+                    rerun = None
+            elif not ln.startswith(";"):
+                lines.append(ln)
+    return rerun, lines
 
 
 def write_replay_text(pid, name, text):
